@@ -1658,6 +1658,25 @@ example : isBinary (naryClosed 2 3 7) = true ∧ isBinary (naryClosed 2 0 6) = f
     size (naryClosed 2 3 7) = 7 ∧ usesList (naryClosed 2 3 7) 7 = true ∧ leaves (naryClosed 2 3 7) = 4 ∧
     isNary (naryClosed 4 0 5) 4 = true := by decide
 
+/-- **the root is looked up in the roster as it is at the time of the call**: after two entries of the
+list were exchanged in place (same length, same members) a root that moved is found at its new
+position — the tree is rooted there, and rooted at the old position only if the same server is still
+(first) there.  (`c12_root_lookup` is for every list; this is its instance for a changed one.) -/
+theorem c12_root_lookup_after_swap (N : Nat) (keys : List Nat) (i j k : Nat) (hN : 1 ≤ N)
+    (hk : k ∈ swapAt keys i j) :
+    (swapAt keys i j).length = keys.length ∧
+    ∃ r, r < keys.length ∧ (swapAt keys i j).getD r 0 = k ∧ (∀ q, q < r → (swapAt keys i j).getD q 0 ≠ k) ∧
+      genNaryKeys N (swapAt keys i j) (some k) = .tree (naryClosed N r keys.length) := by
+  have hl : (swapAt keys i j).length = keys.length := by simp [swapAt]
+  refine ⟨hl, ?_⟩
+  obtain ⟨r, h1, h2, h3, h4⟩ := (c12_root_lookup N (swapAt keys i j) k hN).2.1 hk
+  rw [hl] at h1 h4
+  exact ⟨r, h1, h2, h3, h4⟩
+
+/-- non-vacuity: the root 7 moves from position 0 to position 2 -/
+example : genNaryKeys 2 (swapAt [7, 8, 9] 0 2) (some 7) = .tree (naryClosed 2 2 3) ∧
+    genNaryKeys 2 [7, 8, 9] (some 7) = .tree (naryClosed 2 0 3) := by decide
+
 /-! ### the code regions the model stands for
 Regenerated from /repo's source on every run (`harness/cmd/astfacts` → `OnetVerif/Shapes.lean`): the
 calls that matter for synchronisation and data flow, the lock regions and (for decision logic) the
